@@ -86,6 +86,9 @@ pub struct StoreState {
     pub read_faults: std::collections::BTreeSet<u64>,
     /// armed by the harness: the next bulk put with more than k documents applies k and fails
     pub arm_partial_bulk: Option<u32>,
+    /// `remove_tombstones` removes whatever row a key names, live or not, as the bundled SQLite
+    /// backend does (`DELETE ... WHERE keyspace = ? AND doc_id = ?`); otherwise only tombstones
+    pub blunt_removal: bool,
 }
 
 /// Ordered-map storage behind the real `Storage` trait.
@@ -225,10 +228,11 @@ impl SimStorage {
         {
             let mut st = self.st.lock();
             Self::ensure_ks(&mut st, ks);
+            let blunt = st.blunt_removal;
             let m = st.rows.entry(ks.to_string()).or_default();
             for (id, ts, data, is_rm) in items.iter().take(limit) {
                 if *is_rm {
-                    if matches!(m.get(id), Some(r) if r.data.is_none()) {
+                    if blunt || matches!(m.get(id), Some(r) if r.data.is_none()) {
                         m.remove(id);
                     }
                 } else {
